@@ -143,3 +143,29 @@ def _gen_history(ws, rng, n_steps, files=None, names=None):
             last_valid[rel] = new
         steps.append({"op": op, "rel": rel, "text": new, "valid": v})
     return steps
+
+
+def directed_resend(ws, rng):
+    """a document whose findings depend on another file: edit the other file, then re-send the document unchanged"""
+    names = ws.spec["names"]
+    tests = [r for r in ws.workspace_py() if os.path.basename(r).startswith("test_")]
+    t = rng.choice(tests)
+    d = os.path.dirname(t)
+    conf = os.path.join(d, "conftest.py") if os.path.join(d, "conftest.py") in ws.files else None
+    if conf is None:
+        confs = [r for r in ws.workspace_py() if os.path.basename(r) == "conftest.py" and t.startswith(os.path.dirname(r))]
+        if not confs:
+            return []
+        conf = max(confs, key=len)
+    k = ws.uid()
+    newname = f"late_{k}"
+    t1 = ws.files[t].rstrip("\n") + f"\n\ndef test_late{k}():\n    v = {newname}\n    assert {newname}\n"
+    sfx, _ = gen.fixture_src(ws, newname, rng)
+    c1 = ws.files[conf].rstrip("\n") + "\n\n" + ("import pytest\n" if "import pytest" not in ws.files[conf] else "") + sfx
+    steps = [{"op": "add_undeclared_use", "rel": t, "text": t1, "valid": True},
+             {"op": "add_fixture", "rel": conf, "text": c1, "valid": True},
+             {"op": "resend", "rel": t, "text": t1, "valid": True}]
+    if rng.random() < 0.5:
+        steps += [{"op": "remove_fixture", "rel": conf, "text": ws.files[conf], "valid": True},
+                  {"op": "resend", "rel": t, "text": t1, "valid": True}]
+    return steps
